@@ -103,6 +103,93 @@ def extra_cases(rng, tier):
     add("getitem", "empty slice", (lambda m, a: a[3:1] * 2.0), [onp.arange(4.0)], [0], False)
     add("getitem", "empty integer array", (lambda m, a: a[onp.array([], dtype=int)]), [onp.arange(4.0)], [0], False)
     add("where", "zero-size", (lambda m, a, b: m.where(onp.zeros((0, 2), bool), a, b)), [onp.ones((1, 2)), onp.ones((0, 2))], [0, 1], False)
+    # ---- (0e) reflected operators and left operands of every Python / NumPy kind; built-ins on traced arrays ----
+    pz = R.positive(rng, (2, 3))
+    carr = R.positive(rng, (2, 3), 0.7, 1.9) if False else onp.array([[1.5, 0.75, 2.25], [0.5, 1.25, 1.75]])
+    lefts = (("python float", 2.5), ("python int", 3), ("ndarray", carr), ("ndarray (3,)", onp.array([1.5, 0.5, 2.0])), ("numpy float64 scalar", onp.float64(2.5)),
+             ("0-d array", onp.array(2.5)), ("list", [1.5, 0.5, 2.0]))
+    rops = {"c - z": lambda c, z: c - z, "c / z": lambda c, z: c / z, "c ** z": lambda c, z: c ** z, "c + z": lambda c, z: c + z,
+            "c * z": lambda c, z: c * z, "c % z": lambda c, z: c % z}
+    for ln, cval in lefts:
+        for on, of in rops.items():
+            if ln == "list" and on in ("c + z", "c * z"):
+                continue                              # list + array / list * array are list operations when the list comes first
+            add("reflected " + on, "left operand: " + ln, (lambda m, z, of=of, cval=cval: of(cval, z)), [pz], [0], False)
+    add("reflected @", "ndarray (2,2) @ z", (lambda m, z: onp.array([[1.0, 2.0], [0.5, -1.0]]) @ z), [pz], [0], False)
+    add("reflected @", "list @ z", (lambda m, z: [[1.0, 2.0], [0.5, -1.0]] @ z), [pz], [0], False)
+    add("builtin", "abs(z)", (lambda m, z: abs(z - 1.0)), [pz], [0], False)
+    add("builtin", "pow(z, 3)", (lambda m, z: pow(z, 3)), [pz], [0], False)
+    add("builtin", "pow(2.0, z)", (lambda m, z: pow(2.0, z)), [pz], [0], False)
+    add("builtin", "sum(rows)", (lambda m, z: sum(row * (i + 1.0) for i, row in enumerate(z))), [pz], [0], False)
+    add("builtin", "z ** 2 (int exponent)", (lambda m, z: z ** 2), [pz], [0], False)
+    add("builtin", "z ** -1", (lambda m, z: z ** -1), [pz], [0], False)
+    add("builtin", "z ** 0.5", (lambda m, z: z ** 0.5), [pz], [0], False)
+    add("builtin", "divmod-free floor: z - z % 1", (lambda m, z: z - z % 1.0 + z), [pz], [0], False)
+    add("builtin", "z // 1 * z", (lambda m, z: (z // 1.0) * z), [pz], [0], False)
+    # ---- (0f) stacked (batched) matrices and 1-D right-hand sides in linalg ----
+    def spd_stack(k, n):
+        mats = []
+        for _ in range(k):
+            a_ = R.distinct(rng, (n, n))
+            mats.append(a_ @ a_.T + n * onp.eye(n))
+        return onp.stack(mats)
+    S2 = spd_stack(2, 3)
+    for name, f in (("linalg.det", lambda m, a: m.linalg.det(a)), ("linalg.slogdet", lambda m, a: m.linalg.slogdet(a)[1]),
+                    ("linalg.inv", lambda m, a: m.linalg.inv(a)), ("linalg.cholesky", lambda m, a: m.linalg.cholesky((a + m.swapaxes(a, -1, -2)) / 2)),
+                    ("linalg.eigh", lambda m, a: m.linalg.eigh((a + m.swapaxes(a, -1, -2)) / 2)[0]),
+                    ("linalg.eigh", lambda m, a: (lambda w, v: m.matmul(v * onp.array([1.5, -0.5, 2.0]), m.swapaxes(v, -1, -2)))(*m.linalg.eigh((a + m.swapaxes(a, -1, -2)) / 2))),
+                    ("linalg.svd", lambda m, a: m.linalg.svd(a, compute_uv=False)),
+                    ("linalg.svd", lambda m, a: (lambda u, s_, vh: m.matmul(u * onp.array([1.5, -0.5, 2.0]), vh))(*m.linalg.svd(a, full_matrices=False))),
+                    ("linalg.pinv", lambda m, a: m.linalg.pinv(a)), ("linalg.norm", lambda m, a: m.linalg.norm(a, "nuc", axis=(-2, -1))),
+                    ("linalg.qr", lambda m, a: (lambda q, r: m.matmul(q, r) * 2.0 + m.abs(r[..., 0, 0])[..., None, None])(*m.linalg.qr(a))),
+                    ("linalg.eig", lambda m, a: m.real(m.linalg.eig(a)[0]))):
+        add(name, "stack of two 3x3", f, [S2], [0], False)
+        add(name, "single 3x3", f, [S2[0]], [0], False)
+    B1 = R.distinct(rng, (3,))
+    add("linalg.solve", "stack of matrices, matrix right-hand sides", (lambda m, a, b: m.linalg.solve(a, b)), [S2, R.distinct(rng, (2, 3, 2))], [0, 1], False)
+    add("linalg.solve", "stack of matrices, one shared matrix right-hand side", (lambda m, a, b: m.linalg.solve(a, b)), [S2, R.distinct(rng, (3, 2))], [0, 1], False)
+    add("linalg.solve", "single matrix, 1-D right-hand side", (lambda m, a, b: m.linalg.solve(a, b)), [S2[0], B1], [0, 1], False)
+    add("linalg.solve", "single matrix, stack of right-hand sides", (lambda m, a, b: m.linalg.solve(a, b)), [S2[0], R.distinct(rng, (2, 3, 2))], [0, 1], False)
+    add("linalg.inv", "1x1", (lambda m, a: m.linalg.inv(a)), [onp.array([[2.5]])], [0], False)
+    add("linalg.det", "1x1", (lambda m, a: m.linalg.det(a)), [onp.array([[2.5]])], [0], False)
+    add("linalg.matrix_power", "cube", (lambda m, a: m.linalg.matrix_power(a, 3)), [S2[0] / 4.0], [0], False)
+    add("linalg.tensorinv-free", "trace of inverse", (lambda m, a: m.trace(m.linalg.inv(a))), [S2[0]], [0], False)
+    # ---- (0g) rarely visited configurations ----
+    i23, i32, i3, i33 = R.iarr(rng, (2, 3)), R.iarr(rng, (3, 2)), R.iarr(rng, (3,)), R.iarr(rng, (3, 3))
+    for sub, ops_ in (("ij,jk,kl->il", [i23, i32, R.iarr(rng, (2, 2))]), ("i,i,i->", [i3, R.iarr(rng, (3,)), R.iarr(rng, (3,))]),
+                      ("ij,j,i->", [i23, i3, R.iarr(rng, (2,))]), ("ii->i", [i33]), ("ii->", [i33]), ("ij->ji", [i23]), ("ij->", [i23]),
+                      ("ijk->kj", [R.iarr(rng, (2, 3, 2))]), ("ij,ij,ij->ij", [i23, R.iarr(rng, (2, 3)), R.iarr(rng, (2, 3))]),
+                      ("...i,...i->...", [i23, R.iarr(rng, (2, 3))]), ("i...,i->...", [i32, R.iarr(rng, (3,))]), ("ij,kj->ikj", [i23, R.iarr(rng, (2, 3))])):
+        add("einsum", "'%s'" % sub, (lambda m, *a, sub=sub: m.einsum(sub, *a)), ops_, list(range(len(ops_))), True)
+    for off, a1, a2 in ((0, 0, 1), (1, 0, 1), (-1, 1, 0), (0, 0, 2), (1, -1, 0), (0, 1, 2)):
+        add("trace", "offset=%d axis1=%d axis2=%d" % (off, a1, a2), (lambda m, z, off=off, a1=a1, a2=a2: m.trace(z, off, a1, a2)), [R.iarr(rng, (2, 3, 2))], [0], True)
+    c33a, c33b = R.iarr(rng, (3, 3)), R.iarr(rng, (3, 3))
+    for kw in ({}, {"axis": 0}, {"axisa": 0, "axisb": 1}, {"axisc": 0}, {"axisa": 1, "axisb": 0, "axisc": 0}):
+        add("cross", "options %s" % kw, (lambda m, a, b, kw=kw: m.cross(a, b, **kw)), [c33a, c33b], [0, 1], True)
+    add("cross", "(2,) x (3,) mixed lengths", (lambda m, a, b: m.cross(a, b)), [R.iarr(rng, (2,)), R.iarr(rng, (3,))], [0, 1], True)
+    x4 = R.iarr(rng, (4,))
+    x24 = R.iarr(rng, (2, 4))
+    for name, kws, xs in (("fft.fft", {"axis": 0}, x24), ("fft.fft", {"n": 3, "axis": -1}, x24), ("fft.ifft", {"n": 6}, x4), ("fft.fft2", {"axes": (1, 0)}, x24),
+                          ("fft.fft2", {"s": (2, 3)}, x24), ("fft.fftn", {"axes": (0,)}, x24), ("fft.fftn", {"s": (3,), "axes": (1,)}, x24),
+                          ("fft.ifftn", {"axes": (-1, -2)}, x24), ("fft.fft", {"norm": "forward"}, x4), ("fft.ifft", {"norm": "ortho"}, x4),
+                          ("fft.rfft", {"n": 6}, x4), ("fft.rfft", {"axis": 0}, R.iarr(rng, (4, 2))), ("fft.irfft", {"n": 4}, R.iarr(rng, (3,))),
+                          ("fft.rfft2", {}, R.iarr(rng, (2, 4))), ("fft.irfft2", {"s": (2, 4)}, R.iarr(rng, (2, 3))), ("fft.rfftn", {"axes": (0, 1)}, R.iarr(rng, (2, 4))),
+                          ("fft.fftshift", {}, x24), ("fft.fftshift", {"axes": 1}, x24), ("fft.ifftshift", {"axes": (0,)}, x24)):
+        mod_, fn_ = name.split(".")
+        add(name, "options %s shape %s" % (kws, xs.shape), (lambda m, z, fn_=fn_, kws=kws: getattr(m.fft, fn_)(z, **kws)), [xs], [0], False)
+    add("linspace", "both ends traced, endpoint=False", (lambda m, a, b: m.linspace(a, b, 4, endpoint=False)), [1.0, 3.0], [0, 1], True)
+    add("linspace", "array ends", (lambda m, a, b: m.linspace(a, b, 3)), [R.iarr(rng, (2,)), R.iarr(rng, (2,))], [0, 1], True)
+    add("gradient", "1-D edge_order=2", (lambda m, z: m.gradient(z, edge_order=2)), [R.iarr(rng, (5,))], [0], True, modes=("rev",))
+    for nn in (2, 3):
+        add("diff", "n=%d 1-D" % nn, (lambda m, z, nn=nn: m.diff(z, n=nn)), [R.iarr(rng, (6,))], [0], True)
+    add("rollaxis", "3,1", (lambda m, z: m.rollaxis(z, 2, 1)), [R.iarr(rng, (2, 3, 2))], [0], True)
+    add("select", "three conditions", (lambda m, z: m.select([z > 1.5, z < -1.5, z == 0.0], [z * 2.0, -z, z + 1.0], default=z * 3.0)), [R.distinct(rng, (2, 3))], [0], False)
+    add("nan_to_num", "finite", (lambda m, z: m.nan_to_num(z)), [R.iarr(rng, (2, 3))], [0], True)
+    add("real_if_close", "real input", (lambda m, z: m.real_if_close(z)), [R.iarr(rng, (2, 3))], [0], True)
+    add("logaddexp", "broadcast", (lambda m, a, b: m.logaddexp(a, b)), [R.distinct(rng, (2, 3)), R.distinct(rng, (3,))], [0, 1], False)
+    add("arctan2", "broadcast, all quadrants", (lambda m, a, b: m.arctan2(a, b)), [R.distinct(rng, (2, 3)), R.distinct(rng, (3,))], [0, 1], False)
+    add("mod", "negative operands", (lambda m, a, b: m.mod(a, b)), [onp.array([-3.5, 2.5, -1.25, 4.75]), onp.array([2.0, -2.0, -1.0, 1.5])], [0, 1], False)
+    add("true_divide", "broadcast", (lambda m, a, b: m.true_divide(a, b)), [R.distinct(rng, (2, 3)), R.positive(rng, (3,))], [0, 1], False)
     # ---- (a) the same array object in two argument positions: the derivative is the sum over both positions ----
     v4 = R.distinct(rng, (4,))
     p4 = R.positive(rng, (4,))
